@@ -455,6 +455,7 @@ req_sketch<T, C, A> req_sketch<T, C, A>::deserialize(std::istream& is, const Ser
   const auto num_raw_items = read<uint8_t>(is);
 
   check_preamble_ints(preamble_ints, num_levels);
+  if (k < req_constants::MIN_K) throw std::invalid_argument("Possible corruption: k must be at least " + std::to_string(req_constants::MIN_K) + ", got " + std::to_string(k));
   check_serial_version(serial_version);
   check_family_id(family_id);
 
@@ -534,6 +535,7 @@ req_sketch<T, C, A> req_sketch<T, C, A>::deserialize(const void* bytes, size_t s
   ptr += copy_from_mem(ptr, num_raw_items);
 
   check_preamble_ints(preamble_ints, num_levels);
+  if (k < req_constants::MIN_K) throw std::invalid_argument("Possible corruption: k must be at least " + std::to_string(req_constants::MIN_K) + ", got " + std::to_string(k));
   check_serial_version(serial_version);
   check_family_id(family_id);
 
